@@ -128,7 +128,7 @@ def run(rep):
     m = ('elem', a[2], a[1])
     rep.check(a[1] == members and not a[5], 'C07.A.one-per-member', 'attribute-source', where,
               f'attributes are generated from {E.show(a[1], maxdepth=6)}; expected the members of this argument\'s struct type', ok_detail='for member in struct.members')
-    loc_only = len(a[4]) == 1 and location_filter(a[4][0], m)
+    loc_only = len(a[4]) >= 1 and location_filter(a[4][0] if len(a[4]) == 1 else ('and', list(a[4])), m)
     rep.check(loc_only, 'C07.A.one-per-member', 'attribute-filter', where,
               f'attribute members are filtered by {[E.show(c, maxdepth=7) for c in a[4]]}; expected exactly "binding is Location" (builtins skipped, nothing else)',
               ok_detail='filter: Binding::Location only')
